@@ -62,6 +62,19 @@ func (env *Env) evalCall(x *ast.CallExpr, st *State) Val {
 				v := sub.eval(x.Args[0], os)
 				st.pc = os.pc
 				return v
+			case "atentry":
+				// atentry(e): value of e when the innermost loop was entered
+				if env.loopPre == nil {
+					return env.eval(x.Args[0], st)
+				}
+				sub := *env
+				sub.loopPre = nil
+				ps := env.loopPre.clone()
+				ps.pc = st.pc
+				ps.seen = st.seen
+				v := sub.eval(x.Args[0], ps)
+				st.pc = ps.pc
+				return v
 			case "forall", "exists":
 				return env.evalQuant(id.Name, x, st)
 			case "ite":
